@@ -49,10 +49,12 @@ def parseOp (w : String) : Option Op :=
 def parseOps (s : String) : Option (List Op) :=
   if s = "-" || s = "" then some [] else (s.splitOn ",").mapM parseOp
 
-/-- setup may contain `take`: the producer consumed the staged resume in an earlier wait (`none`). -/
+/-- setup may contain earlier waits of the same control: `take` / `w:r` = a reconnect wait (consumes the
+staged resume unless cancelled: `none`), `w:c<len>` = a credit wait (changes nothing: dropped). -/
 def parseSetup (s : String) : Option (List (Option Op)) :=
   if s = "-" || s = "" then some []
-  else (s.splitOn ",").mapM fun w => if w = "take" then some none else (parseOp w).map some
+  else ((s.splitOn ",").filter fun w => !w.startsWith "w:c").mapM fun w =>
+    if w = "take" || w = "w:r" then some none else (parseOp w).map some
 
 def parseThreads (s : String) : Option (List (List Op)) :=
   if s = "-" then some [] else (s.splitOn "/").mapM parseOps
@@ -93,7 +95,7 @@ def answer (idx : String) (expireds : List Bool) (kind len win setup thr order g
   | some k, some w, some su, some th, some ord =>
     let s0 := su.foldl (fun s o => match o with
       | some op => (applyOp Gen.Wake.cfg.tbl op s).1
-      | none => { s with pending := none }) (Sh.new w)
+      | none => if s.cancelled.isSome then s else { s with pending := none }) (Sh.new w)
     let th? : Option (List (List Op)) :=
       match ord with
       | none => some th
